@@ -11,7 +11,7 @@ from fractions import Fraction
 
 from harness import core, runner, tlc
 
-PATHS = ('light', 'group', 'location', 'all', 'zone', 'matrix', 'block')
+PATHS = ('light', 'group', 'location', 'all', 'zone', 'matrix', 'block', 'mx_default')
 POWER_PATHS = ('p_light', 'p_group', 'p_location', 'p_all')
 MODES = ('logical', 'raw', 'rgb')
 
@@ -26,6 +26,7 @@ COMMAND = {
     'light': 'set "A"', 'group': 'set group "G"', 'location': 'set location "L"', 'all': 'set all',
     'zone': 'set "MZ" zone 2 4', 'matrix': 'set "MX" row 1 column 1',
     'block': 'set "MX" begin stage row 1 column 1 end',
+    'mx_default': 'set default\nset "MX" row 0',          # the cell that is read (row 1 column 1) is filled with the default colour
     'p_light': 'on "A"', 'p_group': 'off group "G"', 'p_location': 'on location "L"', 'p_all': 'off all',
 }
 
